@@ -244,6 +244,8 @@ pub trait Message: Sized {
 }
 
 
+/// A-std: whether the thread is unwinding is not something a contract may depend on: any answer is possible
+pub assume_specification [std::thread::panicking] () -> (r: bool);
 /// A-std: the reflexive `From` impl used by `?` is the identity
 pub assume_specification<T> [<T as core::convert::From<T>>::from] (t: T) -> (r: T)
     ensures r == t;
